@@ -173,10 +173,35 @@ Lemma surrogate_pair_refuted :
 Proof. exists w_surrogate_pair. split; [vm_compute; reflexivity|]. eexists. split; vm_compute; reflexivity. Qed.
 
 (** `type A` (ObjectTypeDefinition without fields and directives) and `union U` (without member
-    types) are documents of the language; the grammar rejects them *)
-Lemma object_type_without_fields_refuted : parse_type_system_document 0 w_type_no_fields = PErr.
-Proof. vm_compute. reflexivity. Qed.
-Lemma union_without_members_refuted : parse_type_system_document 0 w_union_no_members = PErr.
+    types) are documents of the language.  Until /repo commits 530788b and 3814a72 the grammar rejected
+    them (they were known findings of this check); now they parse, to the definitions the text denotes, and
+    the dangling `union U =` is a syntax error. *)
+Definition ts_ok (inp : str) : option tsdoc :=
+  match parse_type_system_document 0 inp with POk d => Some d | _ => None end.
+
+Example object_type_without_fields_parses :
+  exists d kw p n, parse_type_system_document 0 w_type_no_fields = POk d /\
+    d = [TSType (TDObject None p n [] [] [] kw)] /\ iname n = s "A" /\ ck_tsdoc w_type_no_fields 0 d = true.
+Proof. do 4 eexists. split; [vm_compute; reflexivity|]. split; [reflexivity|]. split; vm_compute; reflexivity. Qed.
+
+Definition w_type_implements_no_fields : str := s "type A implements I".
+Example object_type_implements_without_fields_parses :
+  exists d kw p n i, parse_type_system_document 0 w_type_implements_no_fields = POk d /\
+    d = [TSType (TDObject None p n [i] [] [] kw)] /\ iname i = s "I" /\ ck_tsdoc w_type_implements_no_fields 0 d = true.
+Proof. do 5 eexists. split; [vm_compute; reflexivity|]. split; [reflexivity|]. split; vm_compute; reflexivity. Qed.
+
+Example union_without_members_parses :
+  exists d kw p n, parse_type_system_document 0 w_union_no_members = POk d /\
+    d = [TSType (TDUnion None p n [] [] kw)] /\ iname n = s "U" /\ ck_tsdoc w_union_no_members 0 d = true.
+Proof. do 4 eexists. split; [vm_compute; reflexivity|]. split; [reflexivity|]. split; vm_compute; reflexivity. Qed.
+
+Definition w_union_directive_no_members : str := s "union U @d".
+Example union_directive_without_members_parses :
+  exists d kw p n dir, parse_type_system_document 0 w_union_directive_no_members = POk d /\
+    d = [TSType (TDUnion None p n [dir] [] kw)] /\ ck_tsdoc w_union_directive_no_members 0 d = true.
+Proof. do 5 eexists. split; [vm_compute; reflexivity|]. split; [reflexivity|]. vm_compute; reflexivity. Qed.
+
+Example union_dangling_equals_rejected : parse_type_system_document 0 (s "union U =") = PErr.
 Proof. vm_compute. reflexivity. Qed.
 
 (** ** non-vacuity: ordinary inputs satisfy the spec-side predicate on the model's output *)
